@@ -26,7 +26,9 @@ type CLICase struct {
 	Stdin    bool   `json:"stdin"`
 	ToStdout bool   `json:"stdout"`
 	Invalid  bool   `json:"invalid_input"`
-	Output   string `json:"output_shown,omitempty"`
+	// ExtraHex: further input files given after the first on the command line (file mode only)
+	ExtraHex []string `json:"extra_input_files_hex,omitempty"`
+	Output   string   `json:"output_shown,omitempty"`
 	Stderr   string `json:"stderr,omitempty"`
 	Report   string `json:"error_report,omitempty"`
 }
@@ -55,6 +57,13 @@ func runCLI(root string, k *CLICase, dir string, id int) cliResult {
 	}
 	if !k.Stdin {
 		args = append(args, in)
+		for xi, xh := range k.ExtraHex {
+			xd, _ := hex.DecodeString(xh)
+			xp := filepath.Join(dir, fmt.Sprintf("in-%d-%d.ion", id, xi))
+			os.WriteFile(xp, xd, 0o644)
+			defer os.Remove(xp)
+			args = append(args, xp)
+		}
 	}
 	cmd := exec.Command(cliPath(root), args...)
 	var so, se bytes.Buffer
@@ -432,9 +441,36 @@ func runC20(c *Ctx) {
 			}
 		})
 		c.JournalCase(w, fmt.Sprintf("cli case_seed=%d", cs))
+		// a second input file with symbol tables of its own (every third valid document, file mode):
+		// each file is a stream of its own, the output is one stream of all the values
+		var extra []string
+		wantAll := vals
+		if !invalid && i%3 == 1 {
+			g2 := gen.New(cs + 7)
+			g2.MaxDepth = 2
+			g2.MaxLen = 20
+			vals2 := append([]*model.Value{model.SymV(model.T("first_of_second_file")), model.SymV(model.T("beta")).WithAnn(model.T("gamma"))}, g2.Stream()...)
+			// same format as the first file half of the time (ids of one file mean other text in the next)
+			rk2 := ReadCase{CaseSeed: cs + 7, Binary: binary != (i%4 == 1), P: 0.3, Vals: vals2}
+			vals1 := append([]*model.Value{model.SymV(model.T("first_of_first_file")), model.SymV(model.T("alpha")).WithAnn(model.T("delta"))}, vals...)
+			rk1 := ReadCase{CaseSeed: cs, Binary: binary, P: 0.2, Vals: vals1}
+			d1, un1, _, err1 := rk1.render()
+			if d2, un2, _, err := rk2.render(); err == nil && !un2 && rk2.selfCheck(d2, false) == "" && err1 == nil && !un1 && rk1.selfCheck(d1, false) == "" {
+				data = d1
+				vals = vals1
+				extra = []string{hex.EncodeToString(d2)}
+				wantAll = append(append([]*model.Value{}, vals1...), vals2...)
+				c.Feat1("two-input-files")
+			}
+		}
 		for fi, f := range formats {
 			for _, stdin := range []bool{false, true} {
 				k := CLICase{InputHex: hex.EncodeToString(data), Shown: showInput(binary, data), Format: f, Stdin: stdin, ToStdout: (i+fi)%2 == 0, Invalid: invalid}
+				vals := vals
+				if !stdin && extra != nil {
+					k.ExtraHex = extra
+					vals = wantAll
+				}
 				res := runCLI(c.Root, &k, dir, w*100+fi*2+b2i(stdin))
 				c.Eval(1)
 				if res.err != nil && res.exit == 0 && !res.timedOut {
@@ -486,12 +522,16 @@ func init() {
 		dir := filepath.Join(c.Root, "out", "c20-replay")
 		os.MkdirAll(dir, 0o755)
 		defer os.RemoveAll(dir)
-		data, _ := hex.DecodeString(k.InputHex)
 		var want []*model.Value
-		if len(data) >= 4 && data[0] == 0xE0 && data[3] == 0xEA {
-			want, _ = refbin.Decode(data, nil)
-		} else {
-			want, _ = reftext.Parse(string(data), nil)
+		for _, hx := range append([]string{k.InputHex}, k.ExtraHex...) {
+			data, _ := hex.DecodeString(hx)
+			var part []*model.Value
+			if len(data) >= 4 && data[0] == 0xE0 && data[3] == 0xEA {
+				part, _ = refbin.Decode(data, nil)
+			} else {
+				part, _ = reftext.Parse(string(data), nil)
+			}
+			want = append(want, part...)
 		}
 		res := runCLI(c.Root, &k, dir, 0)
 		if r := judgeCLI(&k, res, want); r != "" {
